@@ -75,7 +75,10 @@ class Run:
         self.violations = []
         self.records = {}
         self.wrapper_faulted = set()
-        self.tracked = []            # (label, mv object, snapshot)
+        self._referenced = {(c, a['i']) for c, prog in enumerate(trace['callers']) for op in prog
+                            for a in op.get('args', []) if a.get('k') == 'prev'}
+        self.tracked = []            # (label, reference to the mv object, snapshot)
+        self._current = []
         self.storage_only = 0
         self.ops_done = 0
         self.setup_error = None
@@ -154,22 +157,38 @@ class Run:
             pass
 
     # -------------------------------------------------------------------------------
-    def track(self, label, obj):
+    def track(self, label, obj, hold=True):
+        """Remember a multivector and its coefficients.  With hold=False the harness keeps only a weak
+        reference after the end of the current operation, the way user code drops temporaries."""
+        import weakref
         for mv in ops.collect_mvs(obj, []):
-            self.tracked.append((label, mv, ops.snapshot(mv)))
+            if hold or self.trace['world'].get('hold_refs', True):
+                self.tracked.append((label, (lambda m: (lambda: m))(mv), ops.snapshot(mv)))
+            else:
+                self._current.append(mv)                 # strong until the end-of-operation check
+                self.tracked.append((label, weakref.ref(mv), ops.snapshot(mv)))
 
     def check_tracked(self, where):
-        for label, mv, snap in self.tracked:
+        alive = []
+        bad = None
+        for label, ref, snap in self.tracked:
+            mv = ref()
+            if mv is None:
+                continue                                  # the temporary is gone: nothing left to change
+            alive.append((label, ref, snap))
+            if bad is not None:
+                continue
             try:
                 now = ops.snapshot(mv)
             except Exception as e:
                 now = ('unreadable', type(e).__name__)
             if now != snap:
+                bad = mv
                 self.violations.append(dict(clause='I2', where=where, what=label,
                                             expected=repr(snap)[:300], got=repr(now)[:300]))
-                # report each mutated object once
-                self.tracked = [(l, m, s) for (l, m, s) in self.tracked if m is not mv]
-                return
+        # report each mutated object once
+        self.tracked = [(l, r, s) for (l, r, s) in alive if bad is None or r() is not bad]
+        self._current = []
 
     def exec_op(self, op, label, keep=None):
         """Build operands, snapshot them, apply the operation.  Returns (outcome, exception)."""
@@ -181,11 +200,11 @@ class Run:
                 return None
             args = [ops.build_operand(world, op['alg'], r) for r in op.get('args', [])]
             self._argkeys = [tuple(a.keys()) if hasattr(a, 'keys') and hasattr(a, 'values') else None for a in args]
-            self.track(f'operand of {label}', args)
+            self.track(f'operand of {label}', args, hold=False)
             res = ops.apply_op(world, op, args)
-            self.track(f'result of {label}', res)      # returned multivectors must never change afterwards
-            if keep is not None and type(res).__name__ == 'MultiVector':
-                world.prev_results[keep] = res
+            self.track(f'result of {label}', res, hold=False)      # returned multivectors must never change afterwards
+            if keep is not None and keep in self._referenced and type(res).__name__ == 'MultiVector':
+                world.prev_results[keep] = res          # a later operation of this caller uses it as an operand
             return res
         out, exc = ops.outcome_of(go)
         return out, exc
